@@ -107,4 +107,25 @@ CHECKS = {
   "technique": "Coq proof over an abstract inner-product space + PrimFloat trajectory correspondence",
   "design_ref": "DESIGN.md §3 C13, notes/C13.md",
  },
+ "C12": {
+  "text": "Coq theorems over an arbitrary real inner-product space (A self-adjoint, P absent or self-adjoint positive definite; complex Hermitian systems via the real embedding), "
+          "for every k, max_iter, tol, x0, b: tracked residual r_k = b - A x_k while k < max_iter (and exactly what is stale after the final update); conjugacy of directions and "
+          "P-orthogonality of residuals; x_k minimises phi over x0 + span{p_0..p_{k-1}} and over x0 + K_k(PA, P r0) (Krylov optimality), hence the A-norm error never increases; "
+          "breakdown (pAp <= 0) leaves the state unchanged with done() true, and for PD A happens only when solved. The state machine mirrors __init__/_update attribute by attribute "
+          "and is compared after every update with the implementation on PrimFloat.",
+  "note": "Trusted: Coq kernel+vm_compute(PrimFloat); stdlib real-number axioms as printed. Finite termination within n steps is validated numerically only. "
+          "'Written into the caller's array' is checked dynamically (object identity + contents).",
+  "technique": "Coq proof over an abstract inner-product space (invariants by induction over updates) + PrimFloat trajectory correspondence",
+  "design_ref": "DESIGN.md §3 C12, notes/C12_C15.md",
+ },
+ "C15": {
+  "text": "Coq theorems: `while not done: update` performs min(max_iter, first stopping k) updates and iter counts them, for every max_iter (0 and negative included) and any "
+          "interleaving of extra done() calls; with tol = 0 an early stop is a genuine fixed point for GradientMethod (non-accelerated and, after the repair, accelerated — unconditional), "
+          "CG (rz = 0 => solved) and PDHG with scalar steps (resid = 0 => neither x nor u moved); power-iteration estimates are non-decreasing and <= L once normalised. "
+          "The driver model must reproduce every done() answer, iter value and update count of 15 algorithm kinds under random interleavings.",
+  "note": "Trusted: Coq kernel+vm_compute; stdlib real-number axioms. Early-stop statements for Newton, GerchbergSaxton, PDHG with array steps / step adaptation are checked by the oracle only "
+          "(one more update leaves the solution unchanged).",
+  "technique": "Coq proof (state-machine induction) + exact history correspondence (counters, flags) + oracle on extra updates",
+  "design_ref": "DESIGN.md §3 C15, notes/C12_C15.md",
+ },
 }
